@@ -98,7 +98,11 @@ theorem frame_tryFinally {P : α → Prop} {ma : M (ATab V) α} {fin : M (ATab V
     | mk r2 a2 =>
       rw [hf] at s2
       cases r2 with
-      | error e => exact ⟨s1.trans s2, fun x hx => by cases hx⟩
+      | error e =>
+        refine ⟨s1.trans s2, fun x hx => ?_⟩
+        cases r with
+        | ok y => cases hx
+        | error e' => cases e' <;> cases hx
       | ok u => exact ⟨s1.trans s2, fun x hx => p1 x hx⟩
 
 theorem frame_catchIndex {P : α → Prop} {ma : M (ATab V) α} (d : α) (h1 : Frame T P ma) (hd : P d) :
